@@ -288,7 +288,7 @@ def _nontrivial(c):
 
 # ------------------------------------------------------------------ large structured chains (LineChain.tla)
 
-LINE_INVS = ["ChainOK", "RangeOK", "PiStationary", "PinnedSources", "PinnedSinks", "InUnit", "FirstStep",
+LINE_INVS = ["ChainOK", "RangeOK", "PiStationary", "SweepIsDef", "PinnedSources", "PinnedSinks", "InUnit", "FirstStep",
              "MZeroOnSinks", "MFPTFirstStep", "LagLinear", "AllPairsFirstStep"]
 LINE_SIZES = {"quick": (999, 1000, 1001, 1200), "thorough": (999, 1000, 1001, 1200, 1999, 2000)}
 LINE_SMALL = {"quick": (2, 3, 4, 5), "thorough": (2, 3, 4, 5, 6, 7)}
@@ -325,6 +325,16 @@ def line_cases(sizes, modes, lags, first_id=1):
 
 
 TOL_STIFF_CASE = 1e-6
+MANY_N = 5200
+
+
+def many_sinks_case(mode="committor"):
+    """sink sets of thousands of states (a product basin listed microstate by microstate): 5 sources at the left end,
+    a stretch of 195 intermediate states, then two of every three states are sinks (3333 of them); the multiple
+    right-hand sides of the committor solve no longer fit any block size a memory-minded implementation would pick"""
+    n = MANY_N
+    return dict(n=n, wpat=[1, 2, 1, 3], spat=[0, 1, 2], wov=[], sov=[], pscale=(1, 1), mode=mode, src=set(range(1, 6)),
+                snk={i for i in range(201, n + 1) if i % 3 != 2}, cols=set(), lag=(1, 1))
 
 
 def line_special_cases(first_id):
@@ -479,6 +489,8 @@ def _replay_line_case(c):
     ctol = TOL_STIFF_CASE if max(c["s"]) >= 10 ** 6 * max(1, min(x for x in c["w"][:n - 1])) else None
     call = _Caller()
     names = c.get("containers") or (LINE_ALLPAIRS_CONTAINERS if mode == "mfpt_cols" else LINE_CONTAINERS)
+    if n >= 4000:
+        names = ("dense", "csr")          # (27 million cells per dense copy)
     if mode == "committor":
         q = br_vec(c["q"])
     elif mode == "mfpt_sinks":
@@ -818,6 +830,60 @@ def _replay_line_results(ctx, results, jobs, replay_fn=None, report=None):
     return len(cases)
 
 
+def many_sinks_part(ctx):
+    """the clauses FirstStep / PinnedSources / PinnedSinks / InUnit of LineChain.tla on the chain of many_sinks_case():
+    5200 states are beyond what TLC evaluates in exact arithmetic in reasonable time (3.5 minutes and a stack overflow),
+    so no expected VALUES exist at this size; the clauses themselves are evaluated in floating point on what the real
+    code returns (residual of q[i] = sum_j T[i][j] q[j] on the intermediate states at 1e-9)"""
+    from enspara import tpt
+    c = many_sinks_case()
+    n = c["n"]
+    c["w"] = [c["wpat"][k % len(c["wpat"])] for k in range(n)]
+    c["s"] = [c["spat"][k % len(c["spat"])] for k in range(n)]
+    T = line_matrix(c)
+    src = sorted(x - 1 for x in c["src"])
+    snk = sorted(x - 1 for x in c["snk"])
+    inter = np.setdiff1d(np.arange(n), src + snk)
+    rng = np.random.default_rng(ctx.seed)
+    shuffled = [int(x) for x in rng.permutation(snk)]
+    import scipy.sparse as sp
+    with single_thread():
+        for cont, M, sinks in (("dense", T, snk), ("csr", sp.csr_matrix(T), shuffled)):
+            ctx.case(("many-sinks", cont))
+            ctx.traces += 1
+            try:
+                q = np.asarray(tpt.committors(M, src, sinks), dtype=float)
+            except Exception as ex:
+                _violation(ctx, {"kind": "replay", "call": "committors (%d states, %d sinks, %s)" % (n, len(snk), cont),
+                                 "detail": "raised %s: %s" % (type(ex).__name__, str(ex)[:200])},
+                           key="committors/%s/many-sinks/raised" % cont)
+                continue
+            res = np.abs(T[inter] @ q - q[inter])
+            bad = []
+            if q.shape != (n,) or not np.isfinite(q).all():
+                bad.append("shape/finite")
+            else:
+                if np.abs(q[src]).max() > 0:
+                    bad.append("PinnedSources")
+                if np.abs(q[snk] - 1).max() > 0:
+                    bad.append("PinnedSinks")
+                if q.min() < -1e-12 or q.max() > 1 + 1e-12:
+                    bad.append("InUnit")
+                if res.max() > 1e-9:
+                    bad.append("FirstStep")
+            for b in bad:
+                worst = int(inter[int(np.argmax(res))])
+                _violation(ctx, {"kind": "replay", "call": "committors", "container": cont,
+                                 "chain": "many_sinks_case(): %d states on a line, sources %s, %d sinks (two of every three states "
+                                          "from 201 on)" % (n, [x + 1 for x in src], len(snk)),
+                                 "clause": b, "largest_first_step_residual": float(res.max()), "at_state": worst + 1,
+                                 "q_there": float(q[worst]) if q.shape == (n,) else None,
+                                 "how": "LineChain.tla clause evaluated in floating point on the returned vector (no exact "
+                                        "expectation at this size)"},
+                           key="committors/%s/many-sinks/%s" % (cont, b))
+    ctx.notes["many_sinks_case"] = {"states": n, "sinks": len(snk)}
+
+
 def run(ctx):
     ctx.assumptions += ["large chains (LineChain.tla): reversible nearest-neighbour chains with 999..1200 states, "
                         "closed-form values checked by TLC against the first-step equations; all-pairs tables of "
@@ -868,6 +934,7 @@ def run(ctx):
     ctx.notes["replayed_cases"] = ncases
     t3 = time.time()
     ctx.notes["replayed_line_cases"] = _replay_line_results(ctx, line_results, ljobs)
+    many_sinks_part(ctx)
     ctx.notes["wall_s_line_replay"] = round(time.time() - t3, 1)
     ctx.notes["wall_s_tlc_traces_replay"] = [round(t1 - t0, 1), round(t2 - t1, 1), round(t3 - t2, 1)]
     if any("sample" in sc or sc.get("only_emit") or sc.get("multi") or sc.get("emit", 0) < sc.get("parts", 0)
